@@ -194,25 +194,27 @@ func (l *segLib) masterDur() int             { return int(l.kinds["V"].segs[0].d
 
 func (l *segLib) initSeg(track string) []byte { return l.kinds[kindOf(track)].init }
 
-// media returns the segment of a track for number n split into nfrag fragments (CMAF chunks).  nfrag = 1 is the
-// VoD segment itself, re-stamped by binary patch; nfrag > 1 distributes its samples over nfrag moof/mdat pairs
-// (same samples, same total duration, tfdt of fragment j = dts + durations of the samples before it).
-func (l *segLib) media(track string, n, nfrag int) *builtSeg {
+// media returns the segment of a track for grid index g (content and time of VoD position g: decode time
+// g div 4 * cycle + original tfdt), sent by the encoder as sequence number nIn with all times moved by toff ticks of
+// the track, split into nfrag fragments (CMAF chunks).  nfrag = 1 is the VoD segment itself, re-stamped by binary
+// patch; nfrag > 1 distributes its samples over nfrag moof/mdat pairs (same samples, same total duration, tfdt of
+// fragment j = dts + durations of the samples before it).  An unshifted channel has nIn = g and toff = 0.
+func (l *segLib) media(track string, g, nIn int, toff int64, nfrag int) *builtSeg {
 	if nfrag > 1 {
-		return l.mediaFrags(track, n, nfrag)
+		return l.mediaFrags(track, g, nIn, toff, nfrag)
 	}
-	key := fmt.Sprintf("%s/%d", track, n)
+	key := fmt.Sprintf("%s/%d/%d/%d", track, g, nIn, toff)
 	if b, ok := l.cache[key]; ok {
 		return b
 	}
 	k := l.kinds[kindOf(track)]
-	idx := n % len(k.segs)
-	cyc := uint64(n / len(k.segs))
+	idx := g % len(k.segs)
+	cyc := uint64(g / len(k.segs))
 	vs := k.segs[idx]
-	dts := cyc*k.cycle + vs.tfdt
+	dts := cyc*k.cycle + vs.tfdt + uint64(toff)
 	data := make([]byte, len(vs.raw))
 	copy(data, vs.raw)
-	binary.BigEndian.PutUint32(data[vs.mfhdOff:], uint32(n))
+	binary.BigEndian.PutUint32(data[vs.mfhdOff:], uint32(nIn))
 	if vs.tfdtV1 {
 		binary.BigEndian.PutUint64(data[vs.tfdtOff:], dts)
 	} else {
@@ -224,12 +226,12 @@ func (l *segLib) media(track string, n, nfrag int) *builtSeg {
 	return b
 }
 
-func (l *segLib) mediaFrags(track string, n, nfrag int) *builtSeg {
-	key := fmt.Sprintf("%s/%d/%d", track, n, nfrag)
+func (l *segLib) mediaFrags(track string, g, nIn int, toff int64, nfrag int) *builtSeg {
+	key := fmt.Sprintf("%s/%d/%d/%d/%d", track, g, nIn, toff, nfrag)
 	if b, ok := l.cache[key]; ok {
 		return b
 	}
-	one := l.media(track, n, 1)
+	one := l.media(track, g, nIn, toff, 1)
 	k := l.kinds[kindOf(track)]
 	f, err := mp4.DecodeFile(bytes.NewReader(one.data))
 	if err != nil {
@@ -251,7 +253,7 @@ func (l *segLib) mediaFrags(track string, n, nfrag int) *builtSeg {
 	var total int64
 	for j := 0; j < nfrag; j++ {
 		lo, hi := j*len(samples)/nfrag, (j+1)*len(samples)/nfrag
-		nf, err := mp4.CreateFragment(uint32(n), trackID)
+		nf, err := mp4.CreateFragment(uint32(nIn), trackID)
 		if err != nil {
 			panic(err)
 		}
